@@ -1,11 +1,164 @@
 /-
-  Property C20 — logging (work in progress: generated obligations only so far).
+  Property C20 — logging: each committed entry written once, intact, in order; pages returned.
+  Property theorems only; models: Babylon/Log/Entry.lean (part A) and Babylon/Log/Appender.lean
+  (part B); helper lemmas: Babylon/Log/Lemmas*.lean.
+
+  Part A — `LogStreamBuffer` / `LogEntry` (sequential, all inputs).  `Stream.finish ps a0 ops` is
+  `begin()` on an allocator that has handed out `a0` pages of size `ps`, any list `ops` of
+  `sputn bytes` / `sputc byte` / `sync`, then `end()`.  Hypothesis `Fits ps n` (n = bytes streamed):
+      0 < ps  ∧  (K·ps < n  →  8 ∣ ps ∧ 24 ≤ ps)
+  i.e. any positive page size while the entry fits the `K = INLINE_PAGE_CAPACITY` inline pages,
+  and a page that can hold the `PageTable` header plus two pointers, ending exactly at the page end,
+  once a page table is needed.  Outside it the code writes past the table page
+  (`entry_excluded_page_sizes`; the real code is run at `ps = 16` by checks/C20.py: ASan
+  heap-buffer-overflow in `LogStreamBuffer::overflow`).
 -/
-import Babylon.Log.Entry
+import Babylon.Log.LemmasFinal
 
 namespace Babylon.Properties.C20
 open Babylon.Log Babylon.Gen.Log Babylon.Core
 
-theorem gen_constants : sizeofPageTable = 8 ∧ sizeofPtr = 8 ∧ 0 < inlinePageCapacity := by decide
+/-! ### Generated obligations (stop checking when the source changes) -/
+
+/-- Layout constants the model's address arithmetic relies on. -/
+theorem gen_constants :
+    sizeofPageTable = 8 ∧ sizeofPtr = 8 ∧ 0 < inlinePageCapacity ∧
+    offsetofTableNext = 0 ∧ offsetofTablePages = sizeofPageTable ∧
+    -- `pages[INLINE_PAGE_CAPACITY-1]` is the storage of `head`, and the entry ends right after it
+    offsetofHead = offsetofPages + (inlinePageCapacity - 1) * sizeofPtr ∧
+    sizeofLogEntry = offsetofHead + sizeofPtr := by decide
+
+/-- The statement order of the transcribed functions. -/
+theorem gen_skeletons :
+    skel_overflow = [.call "sync", .call "allocate", .call "overflow_page_table", .call "setp", .call "sputc"] ∧
+    skel_overflow_page_table = [.call "allocate", .call "page_size", .call "page_size"] ∧
+    skel_append_to_iovec =
+      [.call "pages_append_to_iovec", .call "page_table_append_to_iovec", .call "pages_append_to_iovec"] ∧
+    skel_page_table_append_to_iovec =
+      [.call "pages_append_to_iovec", .call "emplace_back", .call "pages_append_to_iovec", .call "emplace_back"] ∧
+    skel_pages_append_to_iovec = [.call "emplace_back", .call "emplace_back"] ∧
+    skel_begin = [.call "setp"] ∧ skel_end = [.call "sync"] ∧
+    skel_discard = [.call "append_to_iovec", .call "push_back", .call "deallocate", .call "clear", .call "clear"] := by
+  decide
+
+/-- Shapes of the tests and size expressions the model copies. -/
+theorem gen_entry_shapes :
+    overflowTableTest = "if" ∧ overflowAllocBeforeTable = true ∧
+    fullTableSizeExpr = "(page_size-sizeof(PageTable))/sizeof(char*)*page_size" ∧
+    fullInlineSizeExpr = "INLINE_PAGE_CAPACITY*page_size" ∧ inlineTestOp = ">" ∧ tableLoopOp = ">" := by decide
+
+/-! ### Part A -/
+
+/-- **entry_bytes_exact.**  Whatever is streamed into an entry, in whatever pieces: nothing faults,
+the size field is the number of bytes streamed, and the concatenation of the scatter list produced
+by `append_to_iovec` is exactly the byte sequence streamed. -/
+theorem entry_bytes_exact {α : Type} (ps a0 : Nat) (ops : List (Op α)) (hfit : Fits ps (bytesOf ops).length) :
+    (Stream.finish ps a0 ops).buf.fault = none ∧
+    (Stream.finish ps a0 ops).buf.size = (bytesOf ops).length ∧
+    ∃ iov, appendToIovec (Stream.finish ps a0 ops).buf.entry ps = some iov ∧
+      iovBytes (Stream.finish ps a0 ops).dmem iov = bytesOf ops := by
+  rcases finish_spec ps a0 ops hfit with ⟨h1, h2⟩ | ⟨F, c, T, hs, hps, hsz⟩
+  · have hps : ps ≠ 0 := by have := hfit.1; omega
+    rw [h2, h1]
+    refine ⟨rfl, rfl, [], ?_, rfl⟩
+    simp [appendToIovec, Stream.begin, Buf.begin, Buf.entry, hps, pagesAppend_zero]
+  · obtain ⟨iov, h1, h2, _⟩ := hs.read_spec hsz (by rw [hps]; exact hfit)
+    rw [hps] at h1
+    exact ⟨hs.inv.nofault, hsz, iov, h1, h2⟩
+
+/-- **entry_pages_once.**  Every page allocated for the entry — data pages and page-table pages —
+appears in the scatter list exactly once and nothing else does; the zero-length elements are exactly
+the page-table pages; every element is at most a page long. -/
+theorem entry_pages_once {α : Type} (ps a0 : Nat) (ops : List (Op α)) (hfit : Fits ps (bytesOf ops).length) :
+    ∃ iov, appendToIovec (Stream.finish ps a0 ops).buf.entry ps = some iov ∧
+      (iov.map Prod.fst).Perm (Stream.finish ps a0 ops).buf.allocs ∧
+      (iov.map Prod.fst).Nodup ∧
+      (∀ e ∈ iov, e.2 = 0 ↔ ((Stream.finish ps a0 ops).buf.tmem e.1).isSome) := by
+  rcases finish_spec ps a0 ops hfit with ⟨h1, h2⟩ | ⟨F, c, T, hs, hps, hsz⟩
+  · have hps : ps ≠ 0 := by have := hfit.1; omega
+    rw [h2]
+    refine ⟨[], ?_, by simp [Stream.begin, Buf.begin], by simp, by simp⟩
+    simp [appendToIovec, Stream.begin, Buf.begin, Buf.entry, hps, pagesAppend_zero]
+  · obtain ⟨iov, h1, _, hnz, hz, hperm⟩ := hs.read_spec hsz (by rw [hps]; exact hfit)
+    rw [hps] at h1
+    refine ⟨iov, h1, hperm, hperm.nodup_iff.2 hs.inv.nodup, ?_⟩
+    intro e he
+    have hdisj : ∀ x, x ∈ F ++ [c] → x ∈ T → False := by
+      intro x hx hxT
+      have hnd : (F ++ c :: T).Nodup := hs.inv.perm.nodup_iff.1 hs.inv.nodup
+      have := (List.nodup_append.1 hnd)
+      simp only [List.mem_append, List.mem_singleton] at hx
+      rcases hx with hx | hx
+      · exact this.2.2 x hx x (by simp [hxT]) rfl
+      · subst hx
+        exact (List.nodup_cons.1 this.2.1).1 hxT
+    constructor
+    · intro h0
+      have : e ∈ iov.filter isz := List.mem_filter.2 ⟨he, by simp [isz, h0]⟩
+      have : e.1 ∈ (iov.filter isz).map Prod.fst := List.mem_map_of_mem this
+      rw [hz] at this
+      exact (hs.inv.tdom e.1).2 this
+    · intro hsome
+      have hT : e.1 ∈ T := (hs.inv.tdom e.1).1 hsome
+      apply Classical.byContradiction
+      intro hne
+      have : e ∈ iov.filter nz := List.mem_filter.2 ⟨he, by simp [nz, hne]⟩
+      have : e.1 ∈ (iov.filter nz).map Prod.fst := List.mem_map_of_mem this
+      rw [hnz] at this
+      exact hdisj e.1 this hT
+
+/-- **entry_layout_size_only.**  The finished structural state — size field, inline slots, table
+pages, allocations, hence the scatter list — is a function of the page size, the allocator position
+and the *number* of bytes only: it equals the state reached by that many single-character writes. -/
+theorem entry_layout_size_only {α : Type} (ps a0 : Nat) (ops : List (Op α)) (hfit : Fits ps (bytesOf ops).length) :
+    (Stream.finish ps a0 ops).buf = ((Buf.begin ps a0).putN (bytesOf ops).length).sync := by
+  have hst := St.run ops (St.begin (α := α) ps a0) (by simpa using hfit)
+  have hc := canon_run ops (St.begin (α := α) ps a0) (by simpa using hfit) rfl
+  simp only [List.nil_append, List.length_nil, Nat.zero_add] at hst hc
+  have hok := hst.ok
+  have hok2 := putN_ok ps a0 (bytesOf ops).length hfit
+  show ((Stream.begin ps a0).run ops).buf.sync = _
+  rw [sync_eq hok.1 hok.2, sync_eq hok2.1 hok2.2]
+  exact hc
+
+/-- Corollary in the form of the property text: two ways of streaming the same number of bytes
+produce the same scatter list. -/
+theorem entry_layout_same_length {α β : Type} (ps a0 : Nat) (ops₁ : List (Op α)) (ops₂ : List (Op β))
+    (hlen : (bytesOf ops₁).length = (bytesOf ops₂).length) (hfit : Fits ps (bytesOf ops₁).length) :
+    appendToIovec (Stream.finish ps a0 ops₁).buf.entry ps = appendToIovec (Stream.finish ps a0 ops₂).buf.entry ps := by
+  rw [entry_layout_size_only ps a0 ops₁ hfit, entry_layout_size_only ps a0 ops₂ (hlen ▸ hfit), hlen]
+
+/-- **entry_discard_returns_all.**  `AsyncFileAppender::discard(entry)` hands to `deallocate`
+exactly the pages allocated for the entry, each once (equality of multisets; the allocation list has
+no duplicates). -/
+theorem entry_discard_returns_all {α : Type} (ps a0 : Nat) (ops : List (Op α)) (hfit : Fits ps (bytesOf ops).length) :
+    ∃ freed, discardPages (Stream.finish ps a0 ops).buf.entry ps = some freed ∧
+      freed.Perm (Stream.finish ps a0 ops).buf.allocs ∧ freed.Nodup := by
+  obtain ⟨iov, h1, h2, h3, _⟩ := entry_pages_once ps a0 ops hfit
+  exact ⟨iov.map Prod.fst, by simp [discardPages, h1], h2, h3⟩
+
+/-- The hypothesis is needed: at the page sizes it excludes the writer stores past the end of the
+table page as soon as the entry needs a page table (16: the table holds one pointer but the
+inline→table transition stores two; 8: not even one; 20: the pointer array never ends at the page
+end).  `K·ps + 1` bytes are the shortest such entry. -/
+theorem entry_excluded_page_sizes :
+    (Stream.finish 16 0 [Op.sputn (List.replicate (K * 16 + 1) ())]).buf.fault = some "heap-buffer-overflow" ∧
+    (Stream.finish 8 0 [Op.sputn (List.replicate (K * 8 + 1) ())]).buf.fault = some "heap-buffer-overflow" ∧
+    ((Buf.begin 20 0).putN (K * 20 + 20 + 1)).fault = some "heap-buffer-overflow" ∧
+    ¬ Fits 16 (K * 16 + 1) ∧ Fits 16 (K * 16) ∧ Fits 24 (K * 24 + 1) := by
+  refine ⟨by decide +kernel, by decide +kernel, by decide +kernel, ?_, ?_, ?_⟩
+  · intro h; exact absurd (h.2 (by omega)) (by decide)
+  · exact ⟨by decide, fun h => absurd h (by omega)⟩
+  · exact ⟨by decide, fun _ => by decide⟩
+
+/-- Non-vacuity: a three-table entry at page size 32 (`E = 3`), streamed in pieces, with the scatter
+list the theorems talk about. -/
+example : Fits 32 (K * 32 + 5 * 32 + 7) ∧
+    (appendToIovec (Stream.finish 32 0
+        [Op.sputn (List.replicate 100 ()), Op.sync, Op.sputc (), Op.sputn (List.replicate (K * 32 + 5 * 32 + 7 - 101) ())]).buf.entry 32).map
+      (fun iov => iov.drop (K - 1)) =
+      some [(K - 1, 32), (K, 32), (K + 2, 32), (K + 1, 0), (K + 3, 32), (K + 5, 32), (K + 6, 32), (K + 4, 0),
+            (K + 7, 7), (K + 8, 0)] := by
+  refine ⟨⟨by decide, fun _ => by decide⟩, by decide +kernel⟩
 
 end Babylon.Properties.C20
